@@ -434,6 +434,24 @@ theorem transfer_conserved (c : Cfg) (r : Reader) {σ : Type} (R : UReader σ) (
   rw [xrun_split]
   exact tok_conserved hcap (xfers ops) st0
 
+/-- `UTXOSandbox.Transfer` as found (before `fix:` c846482) refused only `amount = 0`; what it
+appended to the outputs for inputs worth `total` (amounts are written with `big.Int.Bytes()`, the
+absolute value) -/
+def outputsAsFound (total amt : Int) : List Nat :=
+  [amt.natAbs] ++ (if amt < total then [(total - amt).natAbs] else [])
+
+/-- conservation for the code as found, over every amount it accepted -/
+def transfer_conserved_as_found_statement : Prop :=
+  ∀ total amt : Int, amt ≠ 0 → amt ≤ total → 0 ≤ total → (outputsAsFound total amt).sum = total.natAbs
+
+/-- It fails for a negative amount: inputs worth 5, amount −3, outputs 3 and 8
+(corpus/C10/transfer-negative-accepted.ops). -/
+theorem transfer_conserved_as_found_counterexample : ¬ transfer_conserved_as_found_statement := by
+  intro h
+  have := h 5 (-3) (by decide) (by decide) (by decide)
+  revert this
+  decide
+
 /-- Every recorded input belongs to the `from` of the transfer that consumed it: the recorded inputs
 are the concatenation of one chunk per `Transfer` call, in call order; the chunk of a failed call is
 empty, the chunk of a successful call belongs to its `from` address and covers its amount. -/
